@@ -5,6 +5,7 @@ inside package contract into a term of coq/VmGuard/Lang.v (coq/Gen/Callbacks.v, 
 every run); Properties/C20.v proves `check program callbacks = true` by vm_compute and concludes by
 the analyser's soundness theorem.  A Python scanner covers the C side (which callbacks the
 Lua-registered C functions call, luaCheckView guards before SQL writes)."""
+import json
 import os
 import re
 import vf
@@ -23,7 +24,12 @@ META = {
             "and keeps it above its entry value while the body of a view function runs; counter_ok over all translated functions "
             "of package contract is closed by vm_compute on every run, every other syntactic use of isQuery / nestedView / "
             "isFeeDelegation / isView must be in the reviewed list (isQuery is never assigned; contexts are never copied), and "
-            "C20_view_function_readonly composes both analyses.",
+            "C20_view_function_readonly composes both analyses.  The binding of a running Lua state to its own context "
+            "(callbacks resolve contexts[service]) is derived too: VmGuard/Slots.v models the context-slot allocator and proves for "
+            "every worker count and every history of allocations / releases / transaction stores that a query never gets a slot "
+            "of transaction execution, live queries have distinct slots and a live query's slot holds its own context; the real "
+            "allocContextSlot / freeContextSlot text is extracted each run, executed natively on all small histories with these "
+            "predicates and compared with the model by vm_compute.",
     "note": "No implementation run is possible (LuaJIT sources absent).  Trusted: the translator gen_vmguard (no type information: "
             "method calls resolved by name and arity to every candidate), its reviewed lists of mutators / restore operations and "
             "the reviewed list of flag uses, luaViewStart / luaViewEnd being called in pairs by the VM, the C-side scanner, read-only SQLite connections for queries, Coq kernel/vm_compute.",
@@ -122,6 +128,97 @@ def coq_paths(ctx, which):
     return paths, out
 
 
+def gen_slots(ctx):
+    """gen/gen_vmguard_slots -> coq/Gen/Slots.v and the native harness of the slot allocator; runs the harness"""
+    src = os.path.join(ctx.verif, "gen", "gen_vmguard_slots")
+    binp = os.path.join(ctx.workdir, "gen_vmguard_slots")
+    env = ctx.goenv()
+    env["GO111MODULE"] = "off"
+    rc, out = vf.sh(["go", "build", "-o", binp, "."], cwd=src, env=env, timeout=600)
+    if rc != 0:
+        raise RuntimeError("gen_vmguard_slots build failed:\n" + out[-2000:])
+    hdir = os.path.join(ctx.workdir, "slotharness")
+    rc, out = vf.sh([binp, ctx.repo, os.path.join(vf.COQ, "Gen", "Slots.v"), hdir], timeout=120)
+    if rc != 0:
+        raise RuntimeError("gen_vmguard_slots failed:\n" + out[-2000:])
+    hbin = os.path.join(hdir, "slotharness.bin")
+    rc, out = vf.sh(["go", "build", "-o", hbin, "."], cwd=hdir, env=env, timeout=600)
+    if rc != 0:
+        return {"build_error": out[-2500:]}
+    big = (3, 8, 7) if ctx.tier == "quick" else (3, 9, 9)
+    rc, out = vf.sh([hbin] + [str(x) for x in big], timeout=900)
+    recs, hang = [], None
+    for l in out.splitlines():
+        try:
+            r = json.loads(l)
+        except ValueError:
+            continue
+        if "hang" in r:
+            hang = r["hang"]
+        else:
+            recs.append(r)
+    if rc != 0 and hang is None:
+        return {"build_error": "the harness of the slot allocator failed (rc=%d):\n%s" % (rc, out[-1500:])}
+    return {"recs": recs, "hang": hang}
+
+
+def slot_model_compare(ctx, recs):
+    """the Coq model VmGuard/Slots.v evaluated on the histories the real allocator was run on"""
+    lmax = 5 if ctx.tier == "quick" else 7
+    sel = [r for r in recs if r["m"] <= 5 and len(r["ops"]) == lmax]
+    def opc(o):
+        return "OA" if o == "A" else ("OF %s" % o[1:] if o[0] == "F" else "OT %s" % o[1:])
+    nl = lambda l: "[" + "; ".join(str(x) for x in l) + "]"
+    lines = ["From Coq Require Import List Arith.", "From Verif Require Import VmGuard.Slots.", "Import ListNotations.",
+             "Definition cases : list (nat * list op * (list nat * list nat * nat)) := ["]
+    lines.append(";\n".join("  (%d, [%s], (%s, %s, %d))" % (r["m"], "; ".join(opc(o) for o in r["ops"]), nl(r["res"]), nl(r["final"]), r["last"])
+                            for r in sel))
+    lines += ["].",
+              "Definition same (a b : list nat * list nat * nat) : bool :=",
+              "  let '(r1, f1, l1) := a in let '(r2, f2, l2) := b in",
+              "  (if list_eq_dec Nat.eq_dec r1 r2 then true else false) && (if list_eq_dec Nat.eq_dec f1 f2 then true else false) && Nat.eqb l1 l2.",
+              "Fixpoint mism (i : nat) (l : list (nat * list op * (list nat * list nat * nat))) : list nat :=",
+              "  match l with [] => [] | (m, h, o) :: r => if same (observe (mkCfg m 2) h) o then mism (S i) r else i :: mism (S i) r end.",
+              "Definition M := Eval vm_compute in mism 0 cases.", "Print M."]
+    ctx.coq_make(["VmGuard/Slots.vo"])
+    ok, idx, out = ctx.coq_eval_mismatches("slots_cases", "\n".join(lines))
+    if not ok:
+        return None, out, len(sel)
+    return [sel[i] for i in idx if i < len(sel)], out, len(sel)
+
+
+def coq_slot_sites(ctx):
+    txt = ["From Coq Require Import String List Bool.", "From Verif Require Import VmGuard.Reviewed Gen.Slots.",
+           "Definition RES_A := Eval vm_compute in sites_diff slot_sites reviewed_slot_sites.", "Print RES_A.",
+           "Definition RES_B := Eval vm_compute in sites_diff reviewed_slot_sites slot_sites.", "Print RES_B.",
+           "Definition RES_C := Eval vm_compute in sites_diff slot_constant_uses reviewed_slot_constant_uses.", "Print RES_C.",
+           "Definition RES_D := Eval vm_compute in sites_diff reviewed_slot_constant_uses slot_constant_uses.", "Print RES_D.",
+           "Definition RES_E := Eval vm_compute in slots_config_ok slot_constants init_last_query_index init_context_arg tx_store_stmt init_context_base slot_loads_by_service.",
+           "Print RES_E.", "Definition RES_END := tt.", "Print RES_END."]
+    ctx.coq_make(["VmGuard/Reviewed.vo", "Gen/Slots.vo"])
+    rc, out = ctx.coq_eval("slot_sites", "\n".join(txt))
+    if rc != 0:
+        return None, out
+    flat = " ".join(out.split())
+    names = ["RES_A", "RES_B", "RES_C", "RES_D", "RES_E", "RES_END"]
+    res = {}
+    for i, n in enumerate(names[:-1]):
+        m = re.search(r"\b%s = (.*?) \b%s = " % (n, names[i + 1]), flat)
+        if not m:
+            return None, "could not find %s in:\n%s" % (n, out[-1500:])
+        t = m.group(1).rsplit(" : ", 1)[0].strip()
+        if n == "RES_E":
+            res[n] = t == "true"
+            if t not in ("true", "false"):
+                return None, "could not parse RES_E:\n" + out[-1500:]
+            continue
+        items = re.findall(r'\("((?:[^"]|"")*)",\s*"((?:[^"]|"")*)",\s*"((?:[^"]|"")*)"\)', t)
+        if t not in ("[]", "nil") and not items:
+            return None, "could not parse %s:\n%s" % (n, out[-1500:])
+        res[n] = [{"where": a, "kind": b, "what": c.replace('""', '"')} for a, b, c in items]
+    return res, out
+
+
 def coq_counter(ctx):
     """the view-counter analysis on the generated term: failing functions with a witness path, and the
     differences between the generated and the reviewed flag uses"""
@@ -181,6 +278,7 @@ def coq_counter(ctx):
 def run(ctx):
     cbs, funcs, muts, txt = gen_callbacks(ctx)
     cres = gen_c(ctx, cbs)          # both generated files before the proofs are built
+    slots = gen_slots(ctx)
     pr = ctx.prove()
     ctx.cov["trusted_base"] = ["Coq 8.16.1 kernel + vm_compute", "gen/gen_vmguard translator and its reviewed mutator / restore lists",
                                "RunLua abstraction of executor.call", "Python scanner of the C modules", "read-only SQLite connection for queries"]
@@ -208,6 +306,53 @@ def run(ctx):
     if cnt is None:
         ctx.violation("could not evaluate the view-counter analysis on the translated functions", {"log": outc[-2000:]}, no_input=True)
         cnt = {"paths": [], "new": [], "gone": [], "lua_closed": True, "lua_running_ok": True, "lua_running": []}
+    # ---- the context-slot allocator: real code run natively, compared with the model
+    slot_find = []
+    nslot_hist = nslot_cmp = 0
+    how_slots = ("allocContextSlot / freeContextSlot and the store statement of contract.Call, extracted unmodified from contract/vm.go (C.int( -> int() "
+                 "by gen/gen_vmguard_slots and executed in a generated stand-alone Go program; A = allocContextSlot for a new query, F<k> = "
+                 "freeContextSlot of query k, T<s> = a transaction's context stored in service slot s; res = slot + 1 given to the query")
+    if "build_error" in slots:
+        ctx.violation("the slot allocator extracted from contract/vm.go could not be compiled / run in the native harness",
+                      {"log": slots["build_error"]}, no_input=True)
+    else:
+        nslot_hist = len(slots["recs"])
+        if slots["hang"]:
+            slot_find.append(("C20:slots:hang", "allocContextSlot does not terminate although a query slot is free: history " + slots["hang"],
+                              {"history": slots["hang"], "how": how_slots}))
+        viol = sorted([r for r in slots["recs"] if r["viol"]], key=lambda r: (len(r["ops"]), r["m"]))
+        kinds = {}
+        for r in viol:
+            for v in r["viol"]:
+                k = re.sub(r"\d+", "N", re.sub(r"^step \d+: ", "", v))[:60]
+                kinds.setdefault(k, (r, v))
+        for k, (r, v) in list(kinds.items())[:4]:
+            slot_find.append(("C20:slots:" + k, "context slots, maxContext=%d (NumWorkers=%d), history %s: %s" % (r["m"], r["m"] - 2, " ".join(r["ops"]), v),
+                              {"maxContext": r["m"], "history": r["ops"], "results": r["res"], "contexts_after": r["final"], "lastQueryIndex": r["last"],
+                               "violations": r["viol"], "violating_histories_in_all": len(viol), "how": how_slots}))
+        mm, outm, nslot_cmp = slot_model_compare(ctx, slots["recs"])
+        if mm is None:
+            ctx.violation("could not evaluate the slot model on the observed histories", {"log": outm[-2000:]}, no_input=True)
+        elif mm and not viol:
+            r = sorted(mm, key=lambda r: (r["m"], r["ops"]))[0]
+            slot_find.append(("C20:slots:model", "the real allocator and the model VmGuard/Slots.v differ: maxContext=%d, history %s, real results %s final %s last %d"
+                              % (r["m"], " ".join(r["ops"]), r["res"], r["final"], r["last"]),
+                              {"maxContext": r["m"], "history": r["ops"], "real": {"res": r["res"], "final": r["final"], "last": r["last"]},
+                               "differing_histories": len(mm), "how": how_slots}))
+    ss, outs = coq_slot_sites(ctx)
+    if ss is None:
+        ctx.violation("could not evaluate the slot-site inventory", {"log": outs[-2000:]}, no_input=True)
+    else:
+        for st in ss["RES_A"] + ss["RES_C"]:
+            slot_find.append(("C20:slots:site:new:%s:%s" % (st["where"], st["what"][:50]),
+                              "use of the context table / service constants that is not in the reviewed list: %s in %s: %s" % (st["kind"], st["where"], st["what"]), {"site": st}))
+        for st in ss["RES_B"] + ss["RES_D"]:
+            slot_find.append(("C20:slots:site:gone:%s:%s" % (st["where"], st["what"][:50]),
+                              "reviewed use of the context table / service constants no longer occurs: %s in %s: %s" % (st["kind"], st["where"], st["what"]), {"site": st}))
+        if not ss["RES_E"]:
+            slot_find.append(("C20:slots:config", "the service constants / lastQueryIndex initialisation / InitContext argument / store statement of contract.Call differ from "
+                              "the configuration the slot model is instantiated with (BlockFactory=0, ChainService=1, MaxVmService=2, lastQueryIndex=ChainService, "
+                              "NumWorkers + 2, contexts[ctx.service] = ctx)", {"generated": open(os.path.join(vf.COQ, "Gen", "Slots.v")).read()[:1500]}))
     unrev = c_unreviewed(ctx)
     if unrev is None:
         c_fail.append(("the C inventory could not be evaluated", []))
@@ -242,7 +387,8 @@ def run(ctx):
 
     ctx.cov["input_distribution"].update({"functions_in_counter_analysis": len(set(re.findall(r"^Definition f_(\w+) : stmt", txt, re.M))) + len(cres["reachable"]),
                                           "flag_uses_reviewed": len(re.findall(r"^  \(", txt.split("Definition flag_sites")[1].split("].")[0], re.M)),
-                                          "lua_running_cgo_entry_points": cnt["lua_running"]})
+                                          "lua_running_cgo_entry_points": cnt["lua_running"],
+                                          "slot_allocator_histories_run_natively": nslot_hist, "slot_histories_compared_with_model": nslot_cmp})
     # ---- decide
     nopro = "No contract program can be executed in this environment (LuaJIT sources absent): the failing input is the path through the host callback."
     badset = set()
@@ -292,7 +438,9 @@ def run(ctx):
     if not cnt["lua_running_ok"]:
         ctx.violation("cgo entry points that run Lua code differ from the reviewed classification in VmGuard/Reviewed.v",
                       {"generated": cnt["lua_running"], "note": nopro}, no_input=True)
-    flagbad = bool(cnt["paths"] or cnt["new"] or cnt["gone"] or not cnt["lua_closed"] or not cnt["lua_running_ok"])
+    for key, what, rep_ in slot_find[:8]:
+        ctx.finding(key, what, dict(rep_, note=nopro))
+    flagbad = bool(slot_find) or bool(cnt["paths"] or cnt["new"] or cnt["gone"] or not cnt["lua_closed"] or not cnt["lua_running_ok"])
     if bad or flagbad:
         pass
     elif not pr["ok"]:
